@@ -657,6 +657,9 @@ UPGRADER:
 		case stateBodyTrailerHeaderValueBefore:
 			switch c {
 			case ' ':
+			case '\n':
+				// a bare LF does not end the trailer line.
+				return ErrCRExpected
 			case '\r':
 				if p.headerValue == "" {
 					p.headerValue = string(data[start:i])
